@@ -864,13 +864,16 @@ class TmpPool:
     def __enter__(self):
         if self._multi_proc:
             self._manager = multiprocessing.Manager().__enter__()
-            self._created_files = self._manager.list()
+            # files created before the context was entered stay in the pool
+            self._created_files = self._manager.list(self._created_files)
         return self
 
     def __exit__(self, exc_type, exc_val, exc_tb):
         self.flush()
         if self._manager is not None:
             self._manager.__exit__(None, None, None)
+            # the shared list is gone with its manager
+            self._created_files = []
 
     def create(self) -> str:
         """
